@@ -38,9 +38,15 @@ Init == /\ par \in [Params -> {1}] \cup [Params -> {2}]
         /\ hist = <<[op |-> "init", par |-> par]>>
 Log(e) == hist' = Append(hist, e)
 
+\* what each setter recomputes (transcribed from the setters; Dep above is what the documented formulas read):
+\* spectra: every setter -> _update_cache(); profiles: polarization -> set_polarization_function, length / radius -> notify
+\* the Laser node only (geometry is generated from them on demand), every other parameter -> _function_changed()
+Recomputes(p) == IF IsSpectrum THEN {"binned"}
+                 ELSE IF p = "polarization" THEN {"polfun"}
+                 ELSE IF p \in {"laser_length", "laser_radius"} THEN {} ELSE {"efun"}
 Set(p, v) ==
     /\ par' = [par EXCEPT ![p] = v]
-    /\ cache' = [c \in Caches |-> IF p \in Dep(c) THEN <<Proj(c, par')>> ELSE cache[c]]
+    /\ cache' = [c \in Caches |-> IF c \in Recomputes(p) THEN <<Proj(c, par')>> ELSE cache[c]]
     /\ outcome' = "ok"
     /\ Log([op |-> "set", p |-> p, v |-> v])
 SetInvalid(p, v) ==
